@@ -174,11 +174,11 @@ def make_visitor(rules: dict, strict: bool):
     for cname, rule in rules.items():
         if rule != "none":
             methods[f"visit_{cname}"] = mk(rule, cname)
-    return layered("V", ASTTransformVisitor, methods, sum(1 for r in rules.values() if r != "none") % 3)()
+    return layered("V", ASTTransformVisitor, methods, sum(1 for r in rules.values() if r != "none") % 4)()
 
 
 def layered(name, base, ns, layout):
-    """The visitor class in one of three layouts (what a project with its own base visitor looks like):
+    """The visitor class in one of five layouts (what a project with its own base visitor / rule table looks like):
     0 flat - flag and methods in one class; 1 the strict flag set on an intermediate base class and only inherited by the
     class that defines the methods; 2 flag and methods defined on a base class, the class in use adds nothing."""
     if layout == 0:
@@ -186,8 +186,22 @@ def layered(name, base, ns, layout):
     if layout == 1:
         mid = type(name + "Base", (base,), {"strict": ns["strict"]})
         return type(name, (mid,), {k: v for k, v in ns.items() if k != "strict"})
-    mid = type(name + "Base", (base,), dict(ns))
-    return type(name, (mid,), {})
+    if layout == 2:
+        mid = type(name + "Base", (base,), dict(ns))
+        return type(name, (mid,), {})
+    if layout == 3:
+        # the visit_<Class> attributes are not methods of the class at all: plain functions stored on the INSTANCE (a rule table
+        # applied in __init__); each closes over the visitor it belongs to
+        plain = {k: v for k, v in ns.items() if k.startswith("visit_")}
+        rest = {k: v for k, v in ns.items() if not k.startswith("visit_")}
+
+        def __init__(self):
+            for k, fn in plain.items():
+                setattr(self, k, (lambda f: lambda node: f(self, node))(fn))
+
+        return type(name, (base,), dict(rest, __init__=__init__))
+    # 4: static methods (what a linter suggests for a handler that does not use self) - only for handlers that ignore self
+    return type(name, (base,), {k: (staticmethod((lambda f: lambda node: f(None, node))(v)) if k.startswith("visit_") else v) for k, v in ns.items()})
 
 
 def effective_rule(cname, rules, strict):
@@ -375,7 +389,7 @@ def check_dispatch(rec):
             ns = {"strict": strict, "generic_visit": lambda self, node: "generic"}
             for m in have:
                 ns[f"visit_{m}"] = (lambda mm: lambda self, node: mm)(m)
-            for layout in (0, 1, 2):
+            for layout in (0, 1, 2, 3, 4):
                 vis = layered("DV", ASTVisitor, ns, layout)()
                 for cname, node in nodes.items():
                     rec.count("states")
